@@ -773,6 +773,12 @@ func c09RandomSeq(c *ctx, withLegal, full bool) {
 // two moves per source (its first legal move, one illegal move), every buffer choice, and Clone.
 func c09Exhaustive(c *ctx, depth int, starts int, full bool) {
 	r := c.r
+	type task struct {
+		first c09op
+		size  int
+		top   int
+	}
+	var tasks []task
 	for s := 0; s < starts; s++ {
 		size := 3 + s%2
 		var first c09op
@@ -782,6 +788,40 @@ func c09Exhaustive(c *ctx, depth int, starts int, full bool) {
 				break
 			}
 		}
+		for top := 0; top < 21; top++ {
+			tasks = append(tasks, task{first, size, top})
+		}
+	}
+	// one task per (start, first operation); run in parallel, output in task order
+	outs := make([]*bytes.Buffer, len(tasks))
+	stats := make([]map[string]int64, len(tasks))
+	var wg sync.WaitGroup
+	sem := make(chan struct{}, 16)
+	for i := range tasks {
+		wg.Add(1)
+		sem <- struct{}{}
+		go func(i int) {
+			defer wg.Done()
+			defer func() { <-sem }()
+			var buf bytes.Buffer
+			sub := &ctx{w: bufio.NewWriterSize(&buf, 1<<16), r: nil, tier: c.tier, seed: c.seed, stats: map[string]int64{}, scale: c.scale}
+			c09ExhaustiveFrom(sub, tasks[i].first, tasks[i].size, depth, full, tasks[i].top)
+			sub.w.Flush()
+			outs[i], stats[i] = &buf, sub.stats
+		}(i)
+	}
+	wg.Wait()
+	for i := range outs {
+		c.w.Write(outs[i].Bytes())
+		for k, v := range stats[i] {
+			c.stat(k, v)
+		}
+	}
+}
+
+// all admissible sequences of <= depth operations whose first operation is menu entry `top`
+func c09ExhaustiveFrom(c *ctx, first c09op, size int, depth int, full bool, top int) {
+	{
 		type choice struct {
 			kind    byte
 			h, buf  int
@@ -845,7 +885,10 @@ func c09Exhaustive(c *ctx, depth int, starts int, full bool) {
 			if len(prefix) == depth {
 				return
 			}
-			for _, ch := range menu {
+			for i, ch := range menu {
+				if len(prefix) == 0 && i != top {
+					continue
+				}
 				rec(append(append([]choice(nil), prefix...), ch))
 			}
 		}
@@ -895,7 +938,7 @@ func runC09(c *ctx) {
 				k := lo + i
 				// the legal move set is compared with the model on a fraction of the sequences (the model needs ~15 ms per
 				// position for it); the Go oracle checks it on every handle of every sequence
-				c09RandomSeq(sub, (c.quick() && k%9 == 0) || k%41 == 0, c.quick() || k%21 == 0)
+				c09RandomSeq(sub, (c.quick() && k%17 == 0) || k%41 == 0, c.quick() || k%21 == 0)
 				sub.w.Flush()
 				outs[i], stats[i] = &buf, sub.stats
 			}(i)
